@@ -20,6 +20,11 @@ def r6_1_calculator(ctx, prog):
     for pa in paths:
         z = pa.choice(r"^cmp:Eq:\('t', 'm\.rc'\):\('c', 0\)$")
         one = pa.choice(r"^cmp:Eq:\('t', 'm\.rc'\):\('c', 1\)$")
+        for d_, v_ in pa.switches():
+            # `match self.rc { 0 => .., 1 => .., _ => .. }`: the same three classes, decided by a switch
+            if d_ == "top:m.rc":
+                z = 1 if str(v_) == "0" else 0
+                one = 1 if str(v_) == "1" else (one if z else 0)
         r = C.expr_of(pa, pa.ret)
         w = {x[2][0]: C.expr_of(pa, x[3]) for x in pa.writes if x[1] == "m" and len(x[2]) == 1}
         n += 1
